@@ -71,6 +71,16 @@ OUTER_BINDINGS = [("none", ""), ("outer-class", "class X:\n    class N: ...")]
 REFS = [("X", "X"), ("X.N", "X.N")]
 DOTTED_REFS = [("import pkg.a", "pkg.a.X"), ("import pkg.a", "pkg.a.X.N"), ("import ext", "ext.Y"), ("import pkg.sub.b", "pkg.sub.b.X")]
 SITES = ["mod-annotation", "mod-value", "base", "decorator", "class-annotation", "method-annotation", "method-default", "nested-class-annotation", "init-self-value"]
+# imports that bind a *module* (own submodule, sibling, parent's other child), with and without renaming: (positions, statement, reference)
+_INIT, _A, _SUBI, _B = "pkg/__init__.py", "pkg/a.py", "pkg/sub/__init__.py", "pkg/sub/b.py"
+MODULE_IMPORTS = [
+    ([_INIT], "from . import a", "a.X"), ([_INIT], "from . import a as m", "m.X"), ([_INIT], "from . import a as m", "m.X.N"), ([_INIT, _A], "from . import sub as s", "s.X"),
+    ([_INIT, _A], "from . import sub", "sub.X"), ([_INIT, _A], "from .sub import b as m", "m.X"), ([_INIT, _A], "from .sub import b", "b.X"),
+    ([_SUBI], "from . import b", "b.X"), ([_SUBI], "from . import b as m", "m.X"), ([_SUBI, _B], "from .. import a as m", "m.X"), ([_SUBI, _B], "from .. import a", "a.X"),
+    ([_B], "from .. import sub as s", "s.X"), ([_A, _SUBI, _B], "import pkg.a as m", "m.X"), ([_INIT, _SUBI, _B], "from pkg import a as m", "m.X"),
+    ([_INIT, _A, _B], "from pkg import sub as s", "s.X"), ([_INIT, _A, _SUBI], "from pkg.sub import b as m", "m.X"), ([_INIT, _A], "import pkg.sub.b as m", "m.X.N"),
+    ([_INIT, _A, _SUBI, _B], "import ext as e", "e.Y"), ([_INIT, _A, _SUBI, _B], "import ext as e, ext as e2", "e2.Y"),
+]
 UNBOUND = [("builtin", "int"), ("unknown", "Unknown"), ("unknown-attr", "Unknown.attr"), ("parent-package-name", "sub"), ("top-package-name-attr", "pkg.X")]
 
 
@@ -99,6 +109,10 @@ def all_cases(tier):
         for imp, expr in DOTTED_REFS:
             for site in SITES:
                 yield (pos, ("stmt:" + imp,), "none", "none", site, expr)
+        for poss, imp, expr in MODULE_IMPORTS:
+            if pos in poss:
+                for site in SITES:
+                    yield (pos, ("stmt:" + imp,), "none", "none", site, expr)
         # a module-level name spelled like the enclosing module itself (e.g. `import types` inside pkg/types.py)
         leaf = POSITIONS[pos].rsplit(".", 1)[-1]
         for site in SITES:
